@@ -57,7 +57,7 @@ func TestVerifC02(t *testing.T) {
 	if ev.Thorough() {
 		depth = 6
 	}
-	r.Rule(fmt.Sprintf("breadth-first search to depth %d, from the empty cluster and from a populated root, over event histories {podCreate, podReportIP (take-over input), podDelete(+agent report), reconcile, reconcile with reversed map-iteration order, reconcile whose status update fails, controller restart, clock past gc / full-sync period, cloud drift (remove address, detach interface)}; every transition runs the REAL ReconcileNode.Reconcile on a fake API server + simulated cloud (fresh world per state, replayed); configurations: IP stack x trunk x RDMA (with/without an RDMA pod) x addresses per adapter x adapters x pool (min,max); invariants on the Node CR after every transition (one pod per address, one v4+one v6 per pod, no address under two interfaces, reported address = bound address) and on bindings created by the transition (valid address, in-use interface, same interface for both families, RDMA class)", depth))
+	r.Rule(fmt.Sprintf("breadth-first search to depth %d, from the empty cluster and from two populated roots (pods bound and reporting their addresses; pods bound, nothing reported yet), over event histories {podCreate, podReportIP (take-over input), podDelete(+agent report), reconcile, reconcile with reversed map-iteration order, reconcile whose status update fails, controller restart, clock past gc / full-sync period, cloud drift (remove address, detach interface)}; every transition runs the REAL ReconcileNode.Reconcile on a fake API server + simulated cloud (fresh world per state, replayed); configurations: IP stack x trunk x RDMA (with/without an RDMA pod) x addresses per adapter x adapters x pool (min,max); invariants on the Node CR after every transition (one pod per address, one v4+one v6 per pod, no address under two interfaces, reported address = bound address) and on bindings created by the transition (valid address, in-use interface, same interface for both families, RDMA class)", depth))
 	cfgs := nwConfigs(ev.Thorough())
 	si, sn := ev.Shard()
 	dl := ev.Deadline(150*time.Second, 40*time.Minute)
@@ -68,7 +68,9 @@ func TestVerifC02(t *testing.T) {
 		cfg := cfg
 		var cur *nw
 		// roots: the empty cluster and a populated one (two bound pods that report their addresses, pool filled)
-		roots := [][]string{{}, {"podCreate:0", "podCreate:1", "reconcile", "reconcile", "podReportIP:0", "podReportIP:1"}}
+		roots := [][]string{{}, {"podCreate:0", "podCreate:1", "reconcile", "reconcile", "podReportIP:0", "podReportIP:1"},
+			// bound by the controller, sandbox not set up yet (nothing reported)
+			{"podCreate:0", "podCreate:1", "reconcile", "reconcile"}}
 		res := bfs.Run(bfs.Config{Name: cfg.String(), MaxDepth: depth, Deadline: dl, Roots: roots, Build: func(x *vrt.Exec) bfs.World {
 			cur = newNW(cfg)
 			return &c02World{cur, x}
